@@ -97,7 +97,7 @@ def classify(checks, verdict, timed_out, rc, text):
     if verdict == "FAILED" and not failed and ("out of memory" in text.lower() or "CBMC failed" in text):
         return "INCONCLUSIVE", "out of memory / solver error"
     if verdict == "NONE":
-        if "Status: ERROR" in text or "out of memory" in text.lower() or "ran out of memory" in text.lower() or "std::bad_alloc" in text or "Killed" in text:
+        if "Status: ERROR" in text or "out of memory" in text.lower() or "solver ran out" in text.lower() or "std::bad_alloc" in text or "Killed" in text:
             return "INCONCLUSIVE", "out of memory / solver error"
         return "INCONCLUSIVE", "no verdict (rc=%s)" % rc
     if unwind:
